@@ -1,4 +1,6 @@
 import TucanProofs.Lemmas.Pipeline
+import TucanProofs.Lemmas.FilesPerm
+import TucanProofs.Lemmas.MoreExamples
 import TucanProofs.Lemmas.ClassesEdges
 import TucanProofs.Lemmas.Stable
 import TucanProofs.Examples
@@ -79,5 +81,26 @@ theorem C13_rounds_bounded (order : Graph → List Nat) (g c r : Graph) (k : Nat
   (refined_facts hw hs h).2.2.2.2.2.2
 
 example : exGraph.WF ∧ exGraph.Simple := ⟨exGraph_wf, exGraph_simple⟩
+
+/-- **Label independence for graphs of molecules.**  `g`, `g'` are graphs of molecules `m`, `m'` (`IsGraphOf`: what
+either reader returns for a file stating the molecule); `m'` is `m` with its atoms listed in another order (`σ`,
+inverse `τ`), bonds renumbered accordingly and listed in any order and orientation (`SameMolecule`).  Then atom `i` of
+the first file and atom `σ i` of the second — the same atom of the molecule — end up in the same partition class, and
+both refinements take the same number of rounds.  No oracle is involved. -/
+theorem C13_graphs_of_same_molecule (order order' : Graph → List Nat) (σ τ : Nat → Nat) (m m' : Mol) (hm : m.Ok) (hm' : m'.Ok)
+    (same : SameMolecule σ τ m m') (cs cs' : List (Str × Str × Str))
+    (hc : cs.length = m.atoms.length) (hc' : cs'.length = m'.atoms.length)
+    (g g' : Graph) (hg : IsGraphOf g m cs) (hg' : IsGraphOf g' m' cs') (c c' r r' : Graph) (k k' : Nat)
+    (h : canonicalizeWith g order = .ok (c, r, k)) (h' : canonicalizeWith g' order' = .ok (c', r', k')) :
+    k = k' ∧ ∀ i < m.atoms.length, partOf? r' (σ i) = partOf? r i := by
+  obtain ⟨_, iso⟩ := isGraphOf_iso_perm σ τ m m' hm hm' same cs cs' hc hc' g g' hg hg'
+  obtain ⟨hk, hp⟩ := C13_label_independent order order' σ g g' c c' r r' k k' iso hg.wf hg.simple hg'.wf hg'.simple h h'
+  refine ⟨hk, fun i hi => hp i ?_⟩
+  rw [hg.labels]
+  exact List.mem_range.2 hi
+
+/-- non-vacuity of the statement about graphs of molecules: `FilesExample.mol` and the same molecule listed in reverse order -/
+example : MoreExamples.molRev.Ok ∧ SameMolecule MoreExamples.rev MoreExamples.rev FilesExample.mol MoreExamples.molRev :=
+  ⟨MoreExamples.molRev_ok, MoreExamples.sameMolecule_rev⟩
 
 end Tucan
